@@ -66,7 +66,13 @@ def eval(
 
 def load(path: Union[str, DDSPath, pathlib.Path]) -> Any:
     path_ = DDSPathUtils.create(path)
-    key = _store().fetch_paths([path_]).get(path_)
+    key: Optional[PyHash] = None
+    if _eval_ctx is not None:
+        # Inside an evaluation, the paths produced by this evaluation are only committed at the end:
+        # the store still holds their previous content (or nothing).
+        key = _eval_ctx.requested_paths.get(path_)
+    if key is None:
+        key = _store().fetch_paths([path_]).get(path_)
     if key is None:
         raise DDSException(f"The store {_store()} did not return path {path_}")
     else:
